@@ -417,6 +417,17 @@ pub fn exec(plan: &FaultPlan) -> RunOut {
                 };
                 let _fc = if plan.foreign_conn { rusqlite::Connection::open(dir.join(DB_FILE)).ok() } else { None };
                 let nv = out.violations.len();
+                // every injection runs on a fresh server object; in half of them the server first serves
+                // an ordinary request of the same client, so that in-process state (caches, fast paths)
+                // exists when the fault strikes
+                if fi % 2 == 1 {
+                    let c = op_c(op);
+                    if w.model.client(&ops::client_id(plan.seed, c)).is_some() || plan.entry == Entry::Http {
+                        let warm = Op::AddVersion { c, parent: ops::IdArg::Latest, pay: ops::Pay { class: 2, len: 11, tag: 9_700_000 + fi as u32 }, ch: Chunking::Whole };
+                        w.step(&warm, &mut out);
+                        out.bump("probe.server_warmed_up_before_fault");
+                    }
+                }
                 let fired = faulted_request(&mut w, op, inj, &mut out);
                 if fired {
                     out.bump("probe.fault_injections");
@@ -436,6 +447,16 @@ pub fn exec(plan: &FaultPlan) -> RunOut {
                                 first = false;
                                 if sched::now_us() - t0 > 0 && !matches!(next, Op::Advance { .. }) {
                                     out.violations.push(viol(&["C05"], "fault.lock_leaked", format!("the request after {} + {:?} had to wait {} µs for a lock", op.short(), inj, sched::now_us() - t0)));
+                                }
+                            }
+                        }
+                        // and the chain can still be extended at its true latest version
+                        let c = op_c(op);
+                        if w.model.client(&ops::client_id(plan.seed, c)).is_some() {
+                            let ext = Op::AddVersion { c, parent: ops::IdArg::Latest, pay: ops::Pay { class: 3, len: 9, tag: 9_800_000 + fi as u32 }, ch: Chunking::Whole };
+                            if let Some(s) = w.step(&ext, &mut out) {
+                                if !matches!(s.resp, Resp::AvOk { .. }) && out.violations.len() == nv {
+                                    out.violations.push(viol(&["C05"], "fault.later_request_not_served", format!("after {} + {:?} an AddVersion on the latest version was answered {}", op.short(), inj, s.resp.short())));
                                 }
                             }
                         }
